@@ -282,7 +282,7 @@ def discharge(ob: Obligation, timeout_ms=10000, use_cvc5=True, cross_check=False
         load = os.getloadavg()[0] / max(1, os.cpu_count() or 1)
     except OSError:
         load = 1.0
-    stretch = min(6.0, max(1.0, load))
+    stretch = min(6.0, max(1.0, load)) * float(os.environ.get("PYVC_BUDGET_FACTOR", "1"))
     timeout_ms = int(timeout_ms * stretch)
     first = int(min(timeout_ms, 3000 * stretch))
     from .run import guarded_check
